@@ -190,7 +190,9 @@ Proof.
   induction fuel as [|fuel IH]; intros s t HK; cbn [propagate_task].
   - repeat case_goal; auto using KX_task_reschedule.
   - destruct (negb (is_prio_task s t)); auto.
-    destruct (task_is_runnable s t); [apply KX_task_reschedule; auto|].
+    set (s' := if task_is_runnable s t then task_reschedule s t else s).
+    assert (HK' : KX c s0 s') by (unfold s'; destruct (task_is_runnable s t); auto using KX_task_reschedule).
+    clearbody s'. clear HK s. rename s' into s, HK' into HK.
     destruct (twaiting (gett s t)) as [l|]; auto.
     assert (HK1 : KX c s0 (match lowner (getl s l) with
                            | Some o => propagate_task fuel s o | None => s end)).
